@@ -3,7 +3,7 @@
 
   input :  ons <height> <version> <base> <perBlock> <tld,tld> <feePrice> <minFee> <feeObs> <payer> <sigValid>
                <chainCurrency> <cur,cur,…> <kind> <args…>
-               T <n> <name>… R <n> <rec>… B <n> <addr>/<cur>=<amt>… P <pool>
+               R <n> <rec>… B <n> <addr>/<cur>=<amt>… P <pool>
            feeObs = used gas (decimal) | go (gas overflow) | nf (charge not covered)
            name   = dotted, `-` for the empty name
            rec    = name;owner;benef;creation;lastUpdate;expire;active;onSale;salePrice|~;urihex|-
@@ -115,7 +115,6 @@ def runLine (toks : List String) : Option String :=
                        feePrice := fp, fee := fo, payer := unDash payer, sigValid := sv, minFee := mf, olt := olt,
                        currencies := (unDash curs).splitOn "," }
     let (tx, rest) ← parseTx rest
-    let (tnames, rest) ← takeSection "T" rest
     let (rtoks, rest) ← takeSection "R" rest
     let (btoks, rest) ← takeSection "B" rest
     let recs ← rtoks.mapM parseRec
@@ -123,7 +122,7 @@ def runLine (toks : List String) : Option String :=
     let pool ← match rest with
       | ["P", p] => p.toInt?
       | _ => none
-    let s : St := { recs := recs, tree := tnames.map parseName, bals := bals, pool := pool }
+    let s : St := { recs := recs, bals := bals, pool := pool }
     let (r, s') := step env s tx
     let code := match r with
       | .ok => "ok"
